@@ -356,6 +356,150 @@ def gen_sweep_job(rng, n):
             'masks': list(range(1 << n)), 'ncaps_list': list(range(-1, n + 2))}
 
 
+# ---------------------------------------------------------------- wave 3: storage types and call histories
+
+def f32(v):
+    import struct
+    return struct.unpack('f', struct.pack('f', v))[0]
+
+
+MARGIN32 = Fr(1, 10 ** 4)      # float32 arithmetic inside the implementation: stay 1e-4 from every boundary
+
+
+def margin32_ok(x, cm, p):
+    return abs(exact_omd(x, p) - abs(Fr(cm))) > MARGIN32
+
+
+def xyz_of_radec(rd):
+    ra, dec = math.radians(rd[0]), math.radians(rd[1])
+    return [math.cos(ra) * math.cos(dec), math.sin(ra) * math.cos(dec), math.sin(dec)]
+
+
+AXES = [[1.0, 0.0, 0.0], [-1.0, 0.0, 0.0], [0.0, 1.0, 0.0], [0.0, -1.0, 0.0], [0.0, 0.0, 1.0], [0.0, 0.0, -1.0]]
+
+
+def gen_types_job(rng, k):
+    """The same numbers (all exactly representable in float32) in several storage types."""
+    caps_integral = (k % 4 == 1)
+    pts_integral = (k % 4 in (0, 1))
+    n = rng.randint(1, 3)
+    xs, cms = [], []
+    for _ in range(n):
+        if caps_integral:
+            xs.append(list(rng.choice(AXES)))
+            cms.append(float(rng.choice([1, 2, -1, 1])))
+        else:
+            x = rand_unit(rng)
+            xs.append([f32(c) for c in x])
+            c = rng.choice([1, -1]) * C.dyadic(rng, 1 / 32, 1.75, 7)
+            cms.append(float(c) if c != 0 else 0.5)
+    if pts_integral:
+        radec = [[float(rng.choice([0, 37, 90, 123, 180, 222, 270, 301, 359])), float(rng.randint(-90, 90))] for _ in range(14)]
+        cart = [list(a) for a in AXES]
+    else:
+        radec = [[C.dyadic(rng, 0, 359, 3), C.dyadic(rng, -90, 90, 3)] for _ in range(12)]
+        cart = [[f32(c) for c in rand_unit(rng)] for _ in range(10)] + [list(xs[0])]
+    allc = list(zip(xs, cms))
+    radec = [rd for rd in radec if all(margin32_ok(x, cm, xyz_of_radec(rd)) for x, cm in allc)]
+    cart = [p for p in cart if all(margin32_ok(x, cm, p) for x, cm in allc)]
+    variants = {'f8': ['f8', 'f8', 'f8'], 'f4': ['f4', 'f4', 'f4'], 'f4pts': ['f8', 'f8', 'f4'], 'be': ['be', 'be', 'be'],
+                'nc': ['nc', 'nc', 'nc'], 'fo': ['f8', 'f8', 'fo']}
+    if pts_integral:
+        variants['ipts'] = ['f8', 'f8', 'i8']
+    if caps_integral:
+        variants['icaps'] = ['i8', 'i8', 'f8']
+    t = rng.random()
+    return {'f': 'types', 'x': xs, 'cm': cms, 'use_caps': rng.getrandbits(n) | 1 if rng.random() < 0.7 else (1 << n) - 1,
+            'ncaps': 0 if t < 0.7 else rng.randint(1, 3), 'cart': cart, 'radec': radec, 'variants': variants,
+            'cm_form': rng.choice([None, 'pyfloat', 'zero_d', 'one_elem'])}
+
+
+def gen_file_polys(rng, allcaps):
+    f = rand_unit(rng)
+    out = []
+    for k in range(rng.randint(1, 3)):
+        n = rng.randint(1, 4)
+        p = gen_poly(rng, f, n, k)
+        p['use_caps'] = (1 << n) - 1 if allcaps else (rng.getrandbits(n) or 1)
+        out.append(p)
+    return out
+
+
+def gen_history_job(rng):
+    f = rand_unit(rng)
+    polys = []
+    for k in range(rng.randint(2, 3)):
+        n = rng.randint(2, 5)
+        p = gen_poly(rng, f, n, k)
+        for c in range(1, n):       # doubles, so that set_use_caps has something to remove
+            if rng.random() < 0.35:
+                i = rng.randrange(c)
+                p['x'][c] = list(p['x'][i])
+                p['cm'][c] = p['cm'][i] if rng.random() < 0.6 else -p['cm'][i]
+        p['use_caps'] = rng.getrandbits(n)
+        polys.append(p)
+    files = {'a.ply': [gen_file_polys(rng, True) for _ in range(2)], 'b.fits': [gen_file_polys(rng, False) for _ in range(2)]}
+    allc = [(x, cm) for p in polys for x, cm in zip(p['x'], p['cm'])]
+    allc += [(x, cm) for v in files.values() for lst in v for p in lst for x, cm in zip(p['x'], p['cm'])]
+    pts = [f] + [near(rng, f, rng.choice([0.05, 0.3, 1.0])) for _ in range(8)] + [rand_unit(rng) for _ in range(4)]
+    pts += [list(p['x'][0]) for p in polys]
+    pts = [p for p in pts if all(margin_ok(x, cm, p) for x, cm in allc)]
+    ops = []
+
+    def setuse():
+        k = rng.randrange(len(polys))
+        n = len(polys[k]['cm'])
+        il = rng.sample(range(n), rng.randint(0, n))
+        o = {}
+        if rng.random() < 0.3:
+            o['add'] = True
+        if rng.random() < 0.2:
+            o['allow_neg_doubles'] = True
+        if rng.random() < 0.15:
+            o['allow_doubles'] = True
+        op = {'op': 'setuse', 'k': k, 'il': il, 'opts': o}
+        if il and rng.random() < 0.3:
+            op['as_array'] = True
+        return op
+
+    def inpoly():
+        return {'op': 'inpoly', 'k': rng.randrange(len(polys)), 'ncaps': 0 if rng.random() < 0.7 else rng.randint(1, 5)}
+
+    def window():
+        return {'op': 'window', 'ncaps': 0 if rng.random() < 0.8 else rng.randint(1, 5)}
+    ops += [inpoly(), setuse(), inpoly(), window(), setuse(), setuse(), window(), {'op': 'copy', 'k': rng.randrange(len(polys))}]
+    ops += [{'op': 'mutate_caller'}, inpoly(), window(), setuse(), inpoly()]
+    fileops = []
+    for fname, conv in (('a.ply', False), ('b.fits', rng.random() < 0.5)):
+        c0, c1 = files[fname]
+        fmt = rng.choice(['repr', 'e', 'g'])
+        fileops.append([{'op': 'write', 'file': fname, 'content': c0, 'fmt': fmt},
+                        {'op': 'read', 'file': fname, 'slot': fname + '#0', 'convert': conv},
+                        {'op': 'window_slot', 'slot': fname + '#0', 'ncaps': 0},
+                        {'op': 'write', 'file': fname, 'content': c1, 'fmt': fmt},       # the same path, rewritten
+                        {'op': 'read', 'file': fname, 'slot': fname + '#1', 'convert': conv},
+                        {'op': 'window_slot', 'slot': fname + '#1', 'ncaps': 0},
+                        {'op': 'window_slot', 'slot': fname + '#0', 'ncaps': 0}])       # the object read first is unchanged
+    # interleave the two file stories with the object story
+    a, b = fileops
+    merged = []
+    ia = ib = 0
+    while ia < len(a) or ib < len(b):
+        if ib >= len(b) or (ia < len(a) and rng.random() < 0.5):
+            merged.append(a[ia])
+            ia += 1
+        else:
+            merged.append(b[ib])
+            ib += 1
+    cut = rng.randint(3, len(ops) - 2)
+    ops = ops[:cut] + merged + ops[cut:]
+    pad = []
+    for _ in range(4):
+        x, cm = cap_around(rng, f)
+        pad.append({'x': x, 'cm': cm})
+    return {'f': 'history', 'polys': polys, 'pts': pts, 'ops': ops, 'pad': pad}
+
+
 # ---------------------------------------------------------------- set_use_caps jobs
 
 def gen_setuse_job(rng):
@@ -486,6 +630,10 @@ def correspond(ctx, proof_ok=True):
         jobs.append(gen_cap_job(rng))
     for _ in range(ctx.n(200, 3000)):
         jobs.append(gen_setuse_job(rng))
+    for k in range(ctx.n(12, 120)):
+        jobs.append(gen_types_job(rng, k))
+    for _ in range(ctx.n(10, 100)):
+        jobs.append(gen_history_job(rng))
     nb = C.NPROC
     batches = [jobs[i::nb] for i in range(nb)]
     strip = ('kinds', 'allcaps', 'onecap', 'ilk', 'dupkinds')
@@ -506,6 +654,100 @@ def correspond(ctx, proof_ok=True):
     for ji, (j, r) in enumerate(zip(jobs, results)):
         if 'err' in r and j['f'] != 'setuse':
             direct.append((ji, 'C12:%s:job-failed:%s' % (j['f'], r['err']), 'implementation runner failed: %s' % r, {}, False))
+            continue
+        if j['f'] == 'types':
+            V = r['variants']
+            names = list(j['variants'])
+            base = V.get('f8', {})
+            for name in names:
+                v = V[name]
+                if 'err' in v:
+                    direct.append((ji, 'C12:storage-type:%s:impl=%s' % ('/'.join(j['variants'][name]), v['err']),
+                                   'storage variant %s (x, cm, points as %s) raised %s %s' % (name, j['variants'][name], v['err'], v.get('msg', '')),
+                                   {'variant': name}, True))
+                for pr in (v.get('problems') or []):
+                    direct.append((ji, 'C12:caller-data:%s' % pr.split(': ')[1].split(' ')[0:2][-1], 'storage variant %s: %s' % (name, pr),
+                                   {'variant': name}, True))
+            good = [nm for nm in names if 'err' not in V[nm]]
+            P = {'x': j['x'], 'cm': j['cm'], 'use_caps': j['use_caps']}
+            P1 = {'x': j['x'][:1], 'cm': j['cm'][:1], 'use_caps': 1}
+            allc = list(zip(j['x'], j['cm']))
+            for form in ('cart', 'radec'):
+                pts = j['cart'] if form == 'cart' else r['radec_xyz']
+                keep = [i for i, pt in enumerate(pts) if all(margin32_ok(x, cm, pt) for x, cm in allc)]
+                ptt = C.coq_list([vec_t(pts[i]) for i in keep])
+
+                def exps(key, conv):
+                    out = []
+                    for nm in good:
+                        row = V[nm][key + '_' + form]
+                        out.append('[]' if isinstance(row, dict) else conv([row[i] for i in keep]))
+                    return C.coq_list(out)
+                info = {'mode': form, 'keep': keep, 'pts': pts, 'routes': good, 'types': True}
+                terms.append((ji, dict(info, what='is_in_cap'), '(CPoly %s 0 %s %s)' % (poly_t(P1), ptt, exps('cap', boolist))))
+                terms.append((ji, dict(info, what='is_in_polygon', poly=0),
+                              '(CPoly %s %s %s %s)' % (poly_t(P), C.zlit(j['ncaps']), ptt, exps('poly', boolist))))
+                terms.append((ji, dict(info, what='is_in_window'),
+                              '(CWindow [%s] %s %s %s)' % (poly_t(P), C.zlit(j['ncaps']), ptt, exps('win', zlist))))
+                for nm in good:
+                    count('storage-type:%s:%s' % (nm, 'RA/Dec' if form == 'radec' else 'cartesian'), 3 * len(keep))
+            continue
+        if j['f'] == 'history':
+            H = r['history']
+            state = [dict(p) for p in j['polys']]
+            slots = {}
+            files = {}
+            for oi, (op, rec) in enumerate(zip(j['ops'], H)):
+                kind = op['op']
+                res = rec['res']
+                count('history:%s' % kind)
+                for pr in rec.get('problems') or []:
+                    direct.append((ji, 'C12:caller-data:%s' % ('modified' if 'modified' in pr else 'aliasing'),
+                                   'call %d (%s) of a history: %s' % (oi, kind, pr), {'op_index': oi}, True))
+                cur = [dict(p, use_caps=u) for p, u in zip(state, rec['pre'])]
+                raised = isinstance(res, dict) and 'err' in res
+                info = {'what': 'history', 'op_index': oi, 'op': kind}
+                if kind == 'inpoly':
+                    terms.append((ji, info, '(CPoly %s %s %s [%s])' % (poly_t(cur[op['k']]), C.zlit(op.get('ncaps', 0)),
+                                                                     C.coq_list([vec_t(p) for p in j['pts']]),
+                                                                     '[]' if raised else boolist(res))))
+                elif kind == 'window':
+                    terms.append((ji, info, '(CWindow %s %s %s [%s])' % (C.coq_list([poly_t(p) for p in cur]), C.zlit(op.get('ncaps', 0)),
+                                                                       C.coq_list([vec_t(p) for p in j['pts']]),
+                                                                       '[]' if raised else zlist(res))))
+                elif kind == 'setuse':
+                    P = cur[op['k']]
+                    width = max([len(P['cm']), P['use_caps'].bit_length()] + [i + 1 for i in op['il']]) + 2
+                    terms.append((ji, info, '(CSetUse %s %s %s %d%%nat %s)' % (
+                        poly_t(P), zlist(op['il']), opts_t(op['opts']), width, 'None' if raised else '(Some %s)' % C.zlit(res))))
+                    if not raised:
+                        want_post = list(rec['pre'])
+                        want_post[op['k']] = res
+                        if rec['post'] != want_post:
+                            direct.append((ji, 'C12:history:set_use_caps:polygon-state', 'call %d: use_caps of the polygons after set_use_caps is %s, '
+                                           'expected %s (returned value in slot %d, others untouched)' % (oi, rec['post'], want_post, op['k']),
+                                           {'op_index': oi}, True))
+                elif kind == 'copy':
+                    if res is not True:
+                        direct.append((ji, 'C12:history:copy', 'call %d: copy() of a polygon %s' % (oi, res), {'op_index': oi}, True))
+                elif kind == 'write':
+                    files[op['file']] = op['content']
+                elif kind == 'read':
+                    content = files[op['file']]
+                    slots[op['slot']] = content
+                    why = 'raised %s' % res if raised else stored_equal(content, res)
+                    if why:
+                        direct.append((ji, 'C12:history:read-after-rewrite' if op['slot'].endswith('#1') else 'C12:history:read',
+                                       'call %d: reading %s does not give the polygons last written to that path: %s' % (oi, op['file'], why),
+                                       {'op_index': oi}, True))
+                elif kind == 'window_slot':
+                    content = slots[op['slot']]
+                    terms.append((ji, info, '(CWindow %s %s %s [%s])' % (C.coq_list([poly_t(p) for p in content]), C.zlit(op.get('ncaps', 0)),
+                                                                       C.coq_list([vec_t(p) for p in j['pts']]),
+                                                                       '[]' if raised else zlist(res))))
+                if kind not in ('setuse',) and rec['post'] != rec['pre']:
+                    direct.append((ji, 'C12:caller-data:modified', 'call %d (%s) changed use_caps of a polygon: %s -> %s' % (oi, kind, rec['pre'], rec['post']),
+                                   {'op_index': oi}, True))
             continue
         if j['f'] == 'cap':
             for mode in ('cart', 'radec'):
@@ -713,6 +955,31 @@ def correspond(ctx, proof_ok=True):
                           'C12_in_window_first / C12_set_use_caps_spec / C12_balkans_slice_spec); bit 1: differs from the model M'}
         if not found:
             rep['item'] = 'C12.Model.run_case (%s)' % what
+        if what == 'history':
+            oi = info['op_index']
+            sig = 'C12:history:%s:%s:%s' % (info['op'], 'impl-raised' if isinstance(r['history'][oi]['res'], dict) else 'wrong-answer',
+                                            'property' if found else 'model')
+            rep.update({'job': j, 'failing_call_index': oi, 'failing_call': j['ops'][oi], 'calls_before': j['ops'][:oi],
+                        'impl_record': r['history'][oi], 'coq_case': t[:20000]})
+            report(sig, 'call %d (%s) of a multi-call history on the same objects / file paths gave %s, which is not the model\'s '
+                   'answer for the state the call started from (%s)' % (oi, j['ops'][oi], str(r['history'][oi]['res'])[:80], r['history'][oi]['pre']),
+                   rep, found)
+            continue
+        if info.get('types'):
+            keep, pts = info['keep'], info['pts']
+            stride = len(keep) + 1
+            vname = info['routes'][(pos - 1) // stride] if pos else None
+            pi = (pos - 1) % stride
+            pt = pts[keep[pi]] if 0 <= pi < len(keep) else None
+            st = j['variants'].get(vname)
+            sig = 'C12:storage-type:x=%s,cm=%s,points=%s:%s-input:wrong-answer:%s' % (
+                st[0], st[1], st[2], 'RA/Dec' if info['mode'] == 'radec' else 'cartesian', 'property' if found else 'model') \
+                if st else 'C12:storage-type:?:%s' % what
+            rep.update({'job': j, 'variant': vname, 'storage': st, 'input': info['mode'], 'point': pt, 'coq_case': t[:20000],
+                        'impl_result': r['variants'].get(vname), 'float64_result': r['variants'].get('f8')})
+            report(sig, '%s with x, cm, points stored as %s (%s input) differs from the answer for the same numbers in float64 at point %s'
+                   % (what, st, info['mode'], pt), rep, found)
+            continue
         if what == 'set_use_caps':
             ref = py_set_use_caps(j)
             got = r.get('ok', r.get('err'))
